@@ -196,7 +196,9 @@ class PolicyChooser(Chooser):
                 victim = v if s0 <= self.steps < s0 + ln else None
             else:
                 victim = slots[v % len(slots)] if s0 <= self.steps < s0 + ln else None
-            cand = [i for i, m in enumerate(moves) if m[1] != victim] or list(range(len(moves)))
+            # a fixed victim may be a list of slots (all of them are starved during the window)
+            victims = set(victim) if isinstance(victim, (list, tuple)) else {victim}
+            cand = [i for i, m in enumerate(moves) if m[1] not in victims] or list(range(len(moves)))
             return cand[self.rng.randrange(len(cand))]
         if p == "pct":
             while self.change and self.steps >= self.change[0]:
